@@ -127,14 +127,14 @@ PROPS = {
         "rule": "endpoint with 1..4 workers and a shared Rest::Router; 2..8 keep-alive clients x 1..6 requests with unique tags over routed methods, "
                 "unrouted paths (404/405) and methods without any route, 12 % of the request bodies spanning several receive buffers, 5 % of the runs with a crowd of 70..120 clients that send at the same instant; shutdown() after the load or at a drawn instant in the middle of it, then "
                 "destruction; thread stalls injected; plain and ThreadSanitizer builds; e2e_client_server: the endpoint (1..3 workers, replies also from an application thread, streams, files) "
-                "under the real HTTP client instead of scripted peers, shut down in mid-load in a fifth of the runs; " + NONTRIVIAL,
-        "probes_expected": ["crowd", "request-larger-than-a-receive-buffer", "aborted-at-accept", "shutdown-from-handler", "blocking-serve", "kind-echo", "kind-async", "kind-stream", "shutdown-idle", "shutdown-with-load", "shutdown-with-connections-open", "shutdown-with-requests-in-flight",
+                "under the real HTTP client instead of scripted peers, shut down in mid-load in a fifth of the runs; c13_transport: replies from an application thread to connections that leave while a latecomer is accepted under the same descriptor number (a response must reach the connection it was computed for and no other); " + NONTRIVIAL,
+        "probes_expected": ["latecomer-on-a-reused-descriptor", "crowd", "request-larger-than-a-receive-buffer", "aborted-at-accept", "shutdown-from-handler", "blocking-serve", "kind-echo", "kind-async", "kind-stream", "shutdown-idle", "shutdown-with-load", "shutdown-with-connections-open", "shutdown-with-requests-in-flight",
                             "method-not-allowed", "not-found", "method-without-route-table", "late-client"],
         "assumptions": [],
         "quick": {"batches": [("c09_serving", "plain", 15000), ("c09_serving", "tsan", 2500), ("c09_serving", "tsanat", 6000),
-                              ("e2e_client_server", "plain", 4000), ("e2e_client_server", "tsan", 1000)], "chunk": 100},
+                              ("e2e_client_server", "plain", 4000), ("e2e_client_server", "tsan", 1000), ("c13_transport", "plain", 8000)], "chunk": 100},
         "thorough": {"batches": [("c09_serving", "plain", 100000), ("c09_serving", "tsan", 20000), ("c09_serving", "tsanat", 60000),
-                                 ("e2e_client_server", "plain", 60000), ("e2e_client_server", "tsan", 10000), ("e2e_client_server", "tsanat", 10000)], "chunk": 500},
+                                 ("e2e_client_server", "plain", 60000), ("e2e_client_server", "tsan", 10000), ("e2e_client_server", "tsanat", 10000), ("c13_transport", "plain", 100000)], "chunk": 500},
     },
     "C11": {
         "rule": "promise programs (1..4 roots, 1..10 then/whenAll/whenAny/whenAll(range) nodes, continuation kinds value/void/"
@@ -164,7 +164,7 @@ PROPS = {
         "rule": "plans (1..4 producers x 1..5 pushes, start delays, gaps, prefill, pollable or plain queue) and schedules "
                 "(uniform random / PCT / sticky) drawn from VERIF_SEED; c13_transport: the queues' real consumers - the event loops of Tcp::Transport - with 2..8 connections arriving at about "
                 "the same time on 1..2 workers and an application thread that arms response time-outs (timers queue) and sends replies (writes queue) for them back to back; " + NONTRIVIAL,
-        "probes_expected": ["consumer-woken", "prefilled-before-consumer", "plain-queue", "kind-tmoasync", "kind-async", "kind-async-gone", "kind-busy", "crowd", "kind-park", "kind-notify"],
+        "probes_expected": ["consumer-woken", "prefilled-before-consumer", "plain-queue", "kind-tmoasync", "kind-async", "kind-async-gone", "kind-busy", "crowd", "kind-park", "kind-notify", "latecomer-on-a-reused-descriptor"],
         "assumptions": ["single consumer (as in Pistache's own use of the queue)"],
         "quick": {"batches": [("c13_queue", "plain", 150000), ("c13_queue", "tsan", 15000), ("c13_queue", "tsanat", 30000), ("c13_transport", "plain", 20000), ("c13_transport", "tsan", 2000)], "chunk": 2000},
         "thorough": {"batches": [("c13_queue", "plain", 1000000), ("c13_queue", "tsan", 150000), ("c13_queue", "tsanat", 300000), ("c13_transport", "plain", 300000), ("c13_transport", "tsan", 30000), ("c13_transport", "tsanat", 30000)], "chunk": 5000},
